@@ -102,6 +102,7 @@ type Profile struct {
 	AttrNoise    bool
 	RelURLs      bool // all reference forms (otherwise root-relative only)
 	MediaInText  bool // media inside paragraphs / list items
+	Glue         bool // words that continue across inline element, <wbr> and comment boundaries
 	MXSS         bool // inert text that serialise+parse can turn into live markup (foreign content)
 	Punct        bool // attach / detach punctuation around words
 	NonASCII     bool // sprinkle non-ASCII filler words between tokens (only for pages delivered as trees)
@@ -175,6 +176,9 @@ func (g *ArtGen) textKind() TokKind {
 }
 
 // fillerWords are the only words besides tokens that generated pages contain.
+// glueSuffixes continue a word after the end of an inline element.
+var glueSuffixes = []string{"s", "ing", "ed", "'s"}
+
 // escapedLiterals are words whose source form uses character references for
 // characters that look like markup; {source form, visible word}.
 var escapedLiterals = [][2]string{{"caf&amp;eacute;", "caf&eacute;"}, {"&lt;Integer&gt;", "<Integer>"}, {"&amp;lt;b&amp;gt;", "&lt;b&gt;"}, {"a&lt;b", "a<b"}, {"&amp;amp;", "&amp;"}}
@@ -414,6 +418,24 @@ func (g *ArtGen) inlineRun(n int) string {
 			c = g.r.Intn(12)
 		}
 		switch {
+		case (c == 0 || c == 1) && g.P.Glue && g.r.Chance(1, 3):
+			// a word that starts or ends outside the inline element / is broken by <wbr> or a comment
+			t := inlineTags[g.r.Intn(len(inlineTags))]
+			suffix := glueSuffixes[g.r.Intn(len(glueSuffixes))]
+			switch g.r.Intn(4) {
+			case 0:
+				g.w(" <" + t + ">" + g.toks(k) + "</" + t + ">" + suffix + " ")
+			case 1:
+				g.w(" un<" + t + ">" + g.toks(k) + "</" + t + "> ")
+			case 2:
+				g.w(" " + g.toks(k) + "<wbr>" + suffix + " ")
+			default:
+				g.w(" " + g.toks(k) + "<!---->" + suffix + " ")
+			}
+			if g.curPara >= 0 {
+				g.L.Paras[g.curPara].Simple = false
+			}
+			shape = append(shape, "g")
 		case c == 0 || c == 1:
 			t := inlineTags[g.r.Intn(len(inlineTags))]
 			g.w(" <" + t + g.noise() + ">" + g.toks(k) + "</" + t + "> ")
